@@ -235,6 +235,7 @@ func c13RunOnce(t c13TB, ch *c13Change, mode string) c13Outcome {
 	if cf, err := vcLoadConf(c13JSON(ch.New)); err != nil {
 		t.Fatalf("harness: new configuration does not load: %v", err)
 	} else {
+		c13DebugWiring = os.Getenv("C13_DEBUG") == "wiring"
 		mism, n := c13WiringCheck(sNew, cf)
 		out.Wired = n
 		for _, m := range mism {
@@ -504,6 +505,7 @@ func TestVerifC13Reload(t *testing.T) {
 			rec.Excluded(k)
 		}
 		nt, cls := c13Classes(ch, o, mode)
+		rec.Note(fmt.Sprintf("wiring check (C) compared up to %d (component, field) pairs with the new configuration per case", o.Wired/10*10))
 		rec.Case(nt, ch.Desc()+" via "+mode, cls...)
 	})
 }
